@@ -44,6 +44,8 @@ SPEC = dict(
             I('handle_info_prefix', 'h_handle_info', (1, 2, 1), bound='info set with 1 identity and 2 features; node "abB" under capabilities node "ab"'),
             I('handle_info_foreign', 'h_handle_info', (1, 2, 3), bound='node "ba" under capabilities node "ab": refused'),
             I('presence_caps_1_2', 'h_presence_caps', (1, 2), bound='info set with 1 identity and 2 features'),
+            I('presence_caps_1_0', 'h_presence_caps', (1, 0), bound='info set with 1 identity'),
+            I('handle_info_nonode_1_0', 'h_handle_info', (1, 0, 0), bound='info set with 1 identity; query without node'),
         ]),
     ],
     bounds=['strings: 0..2 UTF-16 units over the alphabet {a, b, B}', '<= 2 identities (category/type/lang/name), <= 3 features with duplicates, optional form with FORM_TYPE (any position) and <= 2 further fields with <= 2 values',
